@@ -9,9 +9,8 @@ preservation by `getUpdate`, `setEntryRes`, `update1`, `updateAll`, `adjust`, `a
   would start from in the model (`updBase`);
 * `EntOK`     — every collected entry carries exactly `updBase` of its target.
 
-Hypothesis throughout: no update marked ignore-failure names one item twice (`NoDupItems`;
-implied by the correspondence driver's guard `dupWithin`). An update that is not marked
-ignore-failure and names an item twice fails the request, so it needs no hypothesis. Core Lean only.
+No hypothesis on the chain: an update naming an item twice is handled by the walk as by the
+ledger (the second mention collides with the first). Core Lean only.
 -/
 import NriModel.Lemmas.ResultWalk
 
@@ -279,7 +278,7 @@ theorem setEntryRes_walk (st : State) (id : Cid) (res : Resources) (ok : EntOK s
 /-! ### one update -/
 
 theorem update1_rel (base : Cid → Resources) (st st' : State) (s : Sim) (p : Plugin) (u : Update)
-    (rel : Rel base st s) (ok : EntOK st) (hnd0 : u.ignoreFailure = true → (setsUpd u).Nodup)
+    (rel : Rel base st s) (ok : EntOK st)
     (h : update1 Quirks.fixed st p u = .ok st') :
     Rel base st' (simUpdate base s u) ∧ EntOK st' := by
   rcases update1_cases Quirks.fixed st p u with ⟨e, _, he⟩ | ⟨st1, hg, h2⟩
@@ -287,41 +286,26 @@ theorem update1_rel (base : Cid → Resources) (st st' : State) (s : Sim) (p : P
   · obtain ⟨hown, hk1⟩ := getUpdate_owners _ st st1 p u hg
     obtain ⟨hub, ok1, hex, hnc⟩ := getUpdate_walk st st1 p u hg ok
     simp only [updSets_fixed] at h2
-    have hnd : (setsUpd u).Nodup := by
-      rcases h2 with ⟨o, hc, _⟩ | ⟨o, e, _, (⟨hi, _⟩ | ⟨_, hu⟩)⟩
-      · exact claimAll_ok_nodup _ _ _ _ _ ((claimAllPartial_none_iff _ _ _ _ _).1 hc)
-      · exact hnd0 hi
-      · rw [hu] at h; cases h
-    obtain ⟨hsp1, hsp2⟩ := claimAllPartial_spec u.containerId p (setsUpd u) st1.owners hnd
-    -- the walk's free prefix is the ledger's
-    have hfree : freeOf s u = (setsUpd u).takeWhile fun it => (st1.owners.owner u.containerId it).isNone := by
-      unfold freeOf
-      apply takeWhile_congr_mem
-      intro it _
-      have := rel.taken u.containerId it hnc
-      rw [hown]
-      cases ho : st.owners.owner u.containerId it with
-      | none =>
-        rw [ho] at this
-        simp only [Option.isSome_none, Bool.false_eq_true, iff_false] at this
-        simp [this]
-      | some w =>
-        rw [ho] at this
-        simp only [Option.isSome_some, iff_true] at this
-        simp [this]
+    -- the walk's claimed prefix is the ledger's
+    have hsp : ((claimAllPartial u.containerId p st1.owners (setsUpd u)).2 = none ↔
+          (freeOf s u).length = (setsUpd u).length) ∧
+        ∀ c' it', ((claimAllPartial u.containerId p st1.owners (setsUpd u)).1.owner c' it').isSome = true ↔
+          ((st1.owners.owner c' it').isSome = true ∨ (c' = u.containerId ∧ it' ∈ freeOf s u)) :=
+      claimAllPartial_spec u.containerId p (setsUpd u) st1.owners s.taken
+        (fun it => by rw [hown]; exact rel.taken u.containerId it hnc)
+    obtain ⟨hsp1, hsp2⟩ := hsp
     -- the ledger part of the relation, whichever way the claims end
     have htaken : ∀ (st2 : State), st2.kind = st1.kind →
         st2.owners = (claimAllPartial u.containerId p st1.owners (setsUpd u)).1 →
         ∀ c it, st2.kind ≠ .create c →
           ((c, it) ∈ (simUpdate base s u).taken ↔ (st2.owners.owner c it).isSome = true) := by
       intro st2 hk2 ho2 c it hc
-      rw [simUpdate_taken, ho2, hsp2 c it, hfree, hown]
+      rw [simUpdate_taken, ho2, hsp2 c it, hown]
       rw [rel.taken c it (by rw [← hk1, ← hk2]; exact hc)]
     rcases h2 with ⟨o, hc, hu⟩ | ⟨o, e, hc, (⟨_, hu⟩ | ⟨_, hu⟩)⟩
     · -- all claims succeeded: the update is applied
       rw [hu] at h; cases h
-      have hlen : (freeOf s u).length = (setsUpd u).length := by
-        rw [hfree]; exact hsp1.1 (by rw [hc])
+      have hlen : (freeOf s u).length = (setsUpd u).length := hsp1.1 (by rw [hc])
       have hk2 : ({ updData Quirks.fixed st1 u with owners := o } : State).kind = st1.kind := updData_kind _ _ _
       cases hr : u.resources with
       | none =>
@@ -337,8 +321,7 @@ theorem update1_rel (base : Cid → Resources) (st st' : State) (s : Sim) (p : P
       | some r =>
         have happ : applies s u = true := by
           unfold applies
-          simp only [hr, hlen, beq_self_eq_true, Bool.true_and, beq_iff_eq]
-          rw [eraseDups_of_nodup _ hnd]
+          simp only [hr, hlen, beq_self_eq_true]
         have hd : updData Quirks.fixed st1 u =
             setEntryRes st1 u.containerId (overlayRes (updBase st1 u.containerId) r r.pids) := by
           unfold updData updPids
@@ -365,7 +348,6 @@ theorem update1_rel (base : Cid → Resources) (st st' : State) (s : Sim) (p : P
         | some r =>
           simp only []
           have : ¬ (freeOf s u).length = (setsUpd u).length := by
-            rw [hfree]
             intro hl
             have := hsp1.2 hl
             rw [hc] at this; cases this
@@ -379,25 +361,21 @@ theorem update1_rel (base : Cid → Resources) (st st' : State) (s : Sim) (p : P
       | some r => simp only [Bool.false_eq_true, false_and, ↓reduceIte]; exact hv
     · rw [hu] at h; cases h
 
-/-- no update of the list that is marked ignore-failure names one item twice (one that is not
-    marked and does fails the request) -/
-def NoDupItems (us : List Update) : Prop := ∀ u ∈ us, u.ignoreFailure = true → (setsUpd u).Nodup
-
 theorem updateAll_rel (base : Cid → Resources) (p : Plugin) (us : List Update) :
-    ∀ (st st' : State) (s : Sim), Rel base st s → EntOK st → NoDupItems us →
+    ∀ (st st' : State) (s : Sim), Rel base st s → EntOK st →
       updateAll Quirks.fixed st p us = .ok st' →
       Rel base st' (us.foldl (simUpdate base) s) ∧ EntOK st' := by
   induction us with
-  | nil => intro st st' s rel ok _ h; simp [updateAll] at h; subst h; exact ⟨rel, ok⟩
+  | nil => intro st st' s rel ok h; simp [updateAll] at h; subst h; exact ⟨rel, ok⟩
   | cons u rest ih =>
-    intro st st' s rel ok hnd h
+    intro st st' s rel ok h
     simp only [updateAll] at h
     cases h1 : update1 Quirks.fixed st p u with
     | error e => rw [h1] at h; cases h
     | ok st1 =>
       rw [h1] at h
-      obtain ⟨rel1, ok1⟩ := update1_rel base st st1 s p u rel ok (hnd u List.mem_cons_self) h1
-      exact ih st1 st' _ rel1 ok1 (fun v hv => hnd v (List.mem_cons_of_mem _ hv)) h
+      obtain ⟨rel1, ok1⟩ := update1_rel base st st1 s p u rel ok h1
+      exact ih st1 st' _ rel1 ok1 h
 
 /-! ### the creation adjustment touches neither the walk's targets nor the update list -/
 
@@ -443,7 +421,7 @@ theorem adjust_rel (base : Cid → Resources) (st st1 : State) (s : Sim) (p : Pl
     simp [isOwn] at this
 
 theorem apply_rel (base : Cid → Resources) (st st' : State) (s : Sim) (p : Plugin) (r : Response)
-    (rel : Rel base st s) (ok : EntOK st) (hnd : NoDupItems r.updates)
+    (rel : Rel base st s) (ok : EntOK st)
     (h : apply Quirks.fixed st p r = .ok st') :
     Rel base st' (r.updates.foldl (simUpdate base) s) ∧ EntOK st' := by
   unfold apply at h
@@ -454,8 +432,8 @@ theorem apply_rel (base : Cid → Resources) (st st' : State) (s : Sim) (p : Plu
     | ok st1 =>
       rw [h1] at h
       obtain ⟨rel1, ok1⟩ := adjust_rel base st st1 s p r.adjust id hk rel ok h1
-      exact updateAll_rel base p r.updates st1 st' s rel1 ok1 hnd h
-  · exact updateAll_rel base p r.updates st st' s rel ok hnd h
+      exact updateAll_rel base p r.updates st1 st' s rel1 ok1 h
+  · exact updateAll_rel base p r.updates st st' s rel ok h
 
 /-- the update lists of a chain, in plugin order -/
 def flatUpdates (rs : List (Plugin × Response)) : List Update := rs.flatMap fun (_, r) => r.updates
@@ -464,25 +442,21 @@ theorem walk_eq (base : Cid → Resources) (rs : List (Plugin × Response)) :
     walk base rs = (flatUpdates rs).foldl (simUpdate base) {} := rfl
 
 theorem run_rel (base : Cid → Resources) (rs : List (Plugin × Response)) :
-    ∀ (st st' : State) (s : Sim), Rel base st s → EntOK st → NoDupItems (flatUpdates rs) →
+    ∀ (st st' : State) (s : Sim), Rel base st s → EntOK st →
       run Quirks.fixed st (answeredAll rs) = .ok st' →
       Rel base st' ((flatUpdates rs).foldl (simUpdate base) s) ∧ EntOK st' := by
   induction rs with
-  | nil => intro st st' s rel ok _ h; simp [answeredAll, run] at h; subst h; exact ⟨rel, ok⟩
+  | nil => intro st st' s rel ok h; simp [answeredAll, run] at h; subst h; exact ⟨rel, ok⟩
   | cons x rest ih =>
-    intro st st' s rel ok hnd h
+    intro st st' s rel ok h
     obtain ⟨p, r⟩ := x
     simp only [answeredAll, List.map_cons, run] at h
     cases h1 : apply Quirks.fixed st p r with
     | error e => rw [h1] at h; cases h
     | ok st1 =>
       rw [h1] at h
-      have hnd1 : NoDupItems r.updates := fun u hu => hnd u (by
-        simp only [flatUpdates, List.flatMap_cons, List.mem_append]; exact .inl hu)
-      have hnd2 : NoDupItems (flatUpdates rest) := fun u hu => hnd u (by
-        simp only [flatUpdates, List.flatMap_cons, List.mem_append]; exact .inr hu)
-      obtain ⟨rel1, ok1⟩ := apply_rel base st st1 s p r rel ok hnd1 h1
-      have := ih st1 st' _ rel1 ok1 hnd2 h
+      obtain ⟨rel1, ok1⟩ := apply_rel base st st1 s p r rel ok h1
+      have := ih st1 st' _ rel1 ok1 h
       simpa only [flatUpdates, List.flatMap_cons, List.foldl_append] using this
 
 /-! ### fresh states -/
